@@ -19,6 +19,8 @@ def run(F, G, tier, seed):
     from ..rules import features
     features.run_valuekind(chk, F, classes=("UTAP::TypeChecker",))
     features.run_stickyerr(chk, F)
+    from ..rules import positions
+    positions.run_poskey(chk, F)
     # the scanner's start condition is the one piece of lexer state that outlives a block: a label that ends
     # inside a comment must not turn the following blocks into comment text
     globalstate.run_startcond(chk, F, CG, Lexer(F))
